@@ -1,4 +1,5 @@
 //! Network component maintaining a pool of outbound and inbound connections to other nodes.
+#![allow(unexpected_cfgs)]
 use std::sync::Arc;
 
 use anyhow::Context as _;
@@ -27,6 +28,8 @@ pub mod testonly;
 #[cfg(test)]
 mod tests;
 mod watch;
+#[cfg(era_consensus_verif)]
+pub mod verif;
 pub use config::*;
 pub use metrics::MeteredStreamStats;
 use zksync_consensus_roles::validator;
